@@ -14,6 +14,7 @@
 #include "clang/Tooling/Tooling.h"
 #include "llvm/Support/CommandLine.h"
 #include "llvm/Support/JSON.h"
+#include <cmath>
 #include <map>
 #include <regex>
 #include <set>
@@ -545,8 +546,9 @@ struct Emitter
         }
         else if (auto* x = dyn_cast<FloatingLiteral>(s))
         {
-            o["k"] = "float";
-            o["v"] = x->getValueAsApproximateDouble();
+            o["k"]   = "float";
+            double dv = x->getValueAsApproximateDouble();
+            o["v"]   = std::isfinite(dv) ? dv : 1e308;
         }
         else if (auto* x = dyn_cast<CXXBoolLiteralExpr>(s))
         {
@@ -583,7 +585,13 @@ struct Emitter
                     if (v->getType()->isIntegralOrEnumerationType() && v->getInit()->EvaluateAsInt(r, C))
                         o["cv"] = (int64_t)r.Val.getInt().getExtValue();
                     else if (v->getType()->isFloatingType() && v->getInit()->EvaluateAsRValue(r, C) && r.Val.isFloat())
-                        o["cv"] = r.Val.getFloat().convertToDouble();
+                    {
+                        double dv = r.Val.getFloat().convertToDouble();
+                        if (std::isfinite(dv))
+                            o["cv"] = dv;
+                        else
+                            o["cvs"] = std::isnan(dv) ? "nan" : (dv > 0 ? "inf" : "-inf");
+                    }
                 }
             }
             else if (auto* ec = dyn_cast<EnumConstantDecl>(d))
@@ -998,6 +1006,21 @@ public:
     bool shouldVisitTemplateInstantiations() const { return true; }
     bool shouldVisitLambdaBody() const { return true; }
     bool shouldVisitImplicitCode() const { return false; }
+
+    bool VisitLambdaExpr(LambdaExpr* l)
+    {
+        auto* m = l->getCallOperator();
+        if (!m)
+            return true;
+        if (auto* ft = m->getDescribedFunctionTemplate())
+        {
+            for (auto* spec : ft->specializations())
+                VisitFunctionDecl(spec);
+            return true;
+        }
+        VisitFunctionDecl(m);
+        return true;
+    }
 
     bool VisitFunctionDecl(FunctionDecl* f)
     {
